@@ -1,9 +1,20 @@
 #!/bin/sh
-# Build the framework from files on disk only (offline): Lean library (all theorems), every driver
-# and harness binary that a claimed check uses.
+# Build the framework from files on disk only (offline): the theorem modules, drivers and harness
+# binaries of every claimed check (cfg/C*.json). Work-in-progress files of unclaimed properties are
+# not built here.
 set -e
 cd /verif
+MODS=$(python3 -c "from checkcfg import PROPS; print(' '.join(sorted({c['props_module'] for c in PROPS.values()})))")
 DRIVERS=$(python3 -c "from checkcfg import PROPS; print(' '.join(sorted({c['driver'] for c in PROPS.values()})))")
 BINS=$(python3 -c "from checkcfg import PROPS; print(' '.join('--bin '+b for b in sorted({c['harness_bin'] for c in PROPS.values()})))")
-(cd lean && lake build TrustfallModel $DRIVERS)
+for pre in $(python3 -c "
+from checkcfg import PROPS
+import json
+for c in PROPS.values():
+    if c.get('lean_pre'): print(json.dumps(c['lean_pre']))
+" | sort -u | tr ' ' '\037'); do
+  echo "lean_pre: $pre" | tr '\037' ' '
+  python3 -c "import json,subprocess,sys; subprocess.run(json.loads(sys.argv[1]), cwd='/verif', check=False)" "$(echo "$pre" | tr '\037' ' ')"
+done
+(cd lean && lake build $MODS $DRIVERS)
 (cd harness && CARGO_NET_OFFLINE=true cargo build --offline $BINS)
